@@ -99,7 +99,9 @@ def _run_one(v: dict) -> dict[str, Any]:
 
 def run_for(prop: str, jobs: int = 16, sample: int | None = None, seed: int = 0, auto: bool = False) -> dict[str, Any] | None:
     vs = _variants_for(prop)
-    if auto:
+    if auto == "private":
+        vs = [v for v in auto_rename_variants(prop) if v["source"] == "auto-private-rename"]
+    elif auto:
         vs = vs + auto_rename_variants(prop)
     if not vs:
         return None
@@ -137,7 +139,7 @@ def merge_into_evidence(prop: str, st: dict[str, Any]) -> None:
 
 def main() -> int:
     import sys
-    auto = "--auto" in sys.argv
+    auto = "private" if "--private" in sys.argv else "--auto" in sys.argv
     props = [a for a in sys.argv[1:] if not a.startswith("--")] or [f"C{i:02d}" for i in range(1, 21)]
     bad = 0
     for p in props:
@@ -184,7 +186,50 @@ def auto_rename_variants(prop: str) -> list[dict]:
             out.append({"prop": prop, "kind": "silent", "name": f"auto: local `{name}` of {q.split(':')[1]} renamed", "auto": (q, name), "source": "auto-rename"})
         for tr in ("annassign", "augexpand", "logline"):
             out.append({"prop": prop, "kind": "silent", "name": f"auto: {tr} in {q.split(':')[1]}", "auto": (q, f"#{tr}"), "source": "auto-transform"})
+    # package-wide rename of every private attribute / private method the analysed functions mention
+    priv: list[str] = []
+    for q in funcs:
+        if q not in prog.funcs:
+            continue
+        for n in _ast.walk(prog.funcs[q].node):
+            if isinstance(n, _ast.Attribute) and n.attr.startswith("_") and not n.attr.startswith("__") and n.attr not in priv:
+                priv.append(n.attr)
+    for name in priv:
+        out.append({"prop": prop, "kind": "silent", "name": f"auto: private name `{name}` renamed package-wide", "auto": ("*", f"@{name}"), "source": "auto-private-rename"})
     return out
+
+
+def _overlay_private_rename(name: str) -> dict[str, str] | None:
+    """Rename a private attribute / method consistently in every module of the package (attribute accesses, method definitions, class-level names)."""
+    import ast as _ast
+
+    from .model import load_program
+    prog = load_program()
+    new = f"{name}_rn"
+    out: dict[str, str] = {}
+    for mod in prog.modules.values():
+        if name not in mod.source:
+            continue
+        if f'"{name}"' in mod.source or f"'{name}'" in mod.source:
+            return None  # accessed through a string (getattr / __slots__): a textual rename is not obviously behaviour-preserving
+        tree = _ast.parse(mod.source)
+        hit = False
+        for n in _ast.walk(tree):
+            if isinstance(n, _ast.Attribute) and n.attr == name:
+                n.attr, hit = new, True
+            elif isinstance(n, (_ast.FunctionDef, _ast.AsyncFunctionDef)) and n.name == name:
+                n.name, hit = new, True
+            elif isinstance(n, _ast.Name) and n.id == name:
+                n.id, hit = new, True
+            elif isinstance(n, _ast.keyword) and n.arg == name:
+                n.arg, hit = new, True
+            elif isinstance(n, _ast.arg) and n.arg == name:
+                n.arg, hit = new, True
+            elif isinstance(n, _ast.alias) and (n.name == name or n.asname == name):
+                return None
+        if hit:
+            out[mod.relpath] = _ast.unparse(tree)
+    return out or None
 
 
 def _overlay_auto(v: dict) -> dict[str, str] | None:
@@ -192,6 +237,8 @@ def _overlay_auto(v: dict) -> dict[str, str] | None:
 
     from .model import load_program
     q, name = v["auto"]
+    if name.startswith("@"):
+        return _overlay_private_rename(name[1:])
     prog = load_program()
     if q not in prog.funcs:
         return None
